@@ -5,3 +5,6 @@ pub trait ArrayLength { spec fn n() -> usize; fn usize_() -> (r: usize) ensures 
 pub open spec fn min_spec(a: usize, b: usize) -> usize { if a <= b { a } else { b } }
 // core::cmp::min on usize (rule R-misc)
 pub fn cmp_min(a: usize, b: usize) -> (r: usize) ensures r == min_spec(a, b) { if a <= b { a } else { b } }
+
+// rule R-panic: a function that may panic returns PanicOr; `ret is Panic <==> ..` is then an ordinary postcondition
+pub enum PanicOr<R> { Panic, Ret(R) }
